@@ -208,6 +208,10 @@ pub fn ty_shrinks(ty: &Ty) -> Vec<Ty> {
 fn tree_shrinks(t: &Tree) -> Vec<Tree> {
     let mut out = Vec::new();
     match t {
+        Tree::Arr(a) if a.len() > 8 => {
+            out.push(Tree::Arr(a[..a.len() / 2].to_vec()));
+            out.push(Tree::Arr(a[a.len() / 2..].to_vec()));
+        }
         Tree::Arr(a) => {
             for i in 0..a.len() {
                 let mut v = a.clone();
@@ -261,7 +265,7 @@ pub fn val_shrinks(ty: &Ty, v: &Val) -> Vec<Val> {
             if cs.len() > 1 {
                 out.push(Val::Str(cs[..cs.len() / 2].iter().collect()));
                 out.push(Val::Str(cs[cs.len() / 2..].iter().collect()));
-                for i in 0..cs.len() {
+                for i in 0..cs.len().min(24) {
                     let mut c = cs.clone();
                     c.remove(i);
                     out.push(Val::Str(c.into_iter().collect()));
@@ -284,13 +288,24 @@ pub fn val_shrinks(ty: &Ty, v: &Val) -> Vec<Val> {
             }
         }
         (Ty::Seq(t), Val::Seq(xs)) => {
-            for i in 0..xs.len() {
-                let mut c = xs.clone();
-                c.remove(i);
-                out.push(Val::Seq(c));
+            // long sequences: halves first, then single removals / element shrinks at a bounded number of
+            // positions (materialising every candidate of a 257 x 257 value would need gigabytes)
+            if xs.len() > 8 {
+                out.push(Val::Seq(xs[..xs.len() / 2].to_vec()));
+                out.push(Val::Seq(xs[xs.len() / 2..].to_vec()));
+                out.push(Val::Seq(xs[..xs.len() - 1].to_vec()));
+                out.push(Val::Seq(xs[1..].to_vec()));
             }
-            for i in 0..xs.len() {
-                for s in val_shrinks(t, &xs[i]) {
+            let idx: Vec<usize> = if xs.len() > 8 { (0..4).chain(xs.len() - 4..xs.len()).collect() } else { (0..xs.len()).collect() };
+            if xs.len() <= 8 {
+                for &i in &idx {
+                    let mut c = xs.clone();
+                    c.remove(i);
+                    out.push(Val::Seq(c));
+                }
+            }
+            for &i in idx.iter().take(if xs.len() > 8 { 2 } else { 8 }) {
+                for s in val_shrinks(t, &xs[i]).into_iter().take(16) {
                     let mut c = xs.clone();
                     c[i] = s;
                     out.push(Val::Seq(c));
@@ -303,6 +318,19 @@ pub fn val_shrinks(ty: &Ty, v: &Val) -> Vec<Val> {
                     let mut c = xs.clone();
                     c[i] = s;
                     out.push(Val::Seq(c));
+                }
+            }
+        }
+        (Ty::Map(_, vt), Val::Map(kvs)) if kvs.len() > 8 => {
+            out.push(Val::Map(kvs[..kvs.len() / 2].to_vec()));
+            out.push(Val::Map(kvs[kvs.len() / 2..].to_vec()));
+            out.push(Val::Map(kvs[..kvs.len() - 1].to_vec()));
+            out.push(Val::Map(kvs[1..].to_vec()));
+            for i in 0..2 {
+                for s in val_shrinks(vt, &kvs[i].1).into_iter().take(16) {
+                    let mut c = kvs.clone();
+                    c[i].1 = s;
+                    out.push(Val::Map(c));
                 }
             }
         }
@@ -382,6 +410,12 @@ pub fn val_shrinks(ty: &Ty, v: &Val) -> Vec<Val> {
 
 /// All one-step shrink candidates of a scenario, most aggressive first.
 pub fn shrinks(sc: &Scenario, names: &[&str]) -> Vec<Scenario> {
+    let mut out = shrinks_uncapped(sc, names);
+    out.truncate(1500);
+    out
+}
+
+fn shrinks_uncapped(sc: &Scenario, names: &[&str]) -> Vec<Scenario> {
     let mut out = Vec::new();
     // restrict to one serializer / route
     if sc.only.len() != 1 {
